@@ -259,7 +259,7 @@ def strip(k, n, **kw):
     """label_strip_fanout(label + str(k)) == label for labels not ending in a digit"""
     s = "".join(STRIPALPHA[kw["x%d" % i]] for i in range(1, n + 1))
     if len(s) == 0 or s[-1].isdigit():
-        return ""
+        return "~"      # label ends in a digit: outside the property's precondition
     got = grammarconst.label_strip_fanout(s + str(k))
     if got != s:
         return "label_strip_fanout(%r) = %r" % (s + str(k), got)
